@@ -118,3 +118,21 @@ def say(*a):
 
 def err(*a):
     print(*a, file=sys.stderr, flush=True)
+
+
+import contextlib
+import fcntl
+
+
+@contextlib.contextmanager
+def global_lock(name):
+    """Serialise use of a shared on-disk resource (Kani target slots, the replay runner's build, the generated replay
+    crate) across concurrently running checks."""
+    os.makedirs(WORK_DIR, exist_ok=True)
+    f = open(os.path.join(WORK_DIR, f".{name}.lock"), "w")
+    try:
+        fcntl.flock(f, fcntl.LOCK_EX)
+        yield
+    finally:
+        fcntl.flock(f, fcntl.LOCK_UN)
+        f.close()
